@@ -141,25 +141,35 @@ Example p1_null_entities_list :
   List.map rq_fetch (ls_reqs (p2_run true (fault_at 1 (FtShape ShEntNull false false)))) = [0; 1].
 Proof. vm_compute. repeat split; reflexivity. Qed.
 
-(* `_entities` items of the wrong kind (a number where an object is expected): MergeValues fails with
-   ErrMergeDifferentTypes, mergeResult returns it, ResolveGraphQLResponse fails and writes nothing -- one bad
-   answer of one subgraph is not isolated.  Also for `data` of the wrong kind on a root fetch. *)
+(* HISTORICAL (before eb6ed70): `_entities` items of the wrong kind (a number where an object is expected) reached MergeValues,
+   which fails with ErrMergeDifferentTypes; mergeResult returned it, ResolveGraphQLResponse failed and wrote nothing -- one bad
+   answer of one subgraph was not isolated.  Also for `data` of the wrong kind on a root fetch. *)
 Lemma wrong_kind_aborts_proof :
   exists answer root_answer kind_of t root F,
     forallb (fetch_wf kind_of) (fetches_of t) = true /\ root_wf root = true /\
-    (exists rq ik we s5, In rq (ls_reqs (run answer root_answer kind_of no_faults t)) /\ F (rq_fetch rq) = Some (FtItems ik we s5)) /\
-    o_failed (finish root (run answer root_answer kind_of F t)) = true.
+    (exists rq ik we s5, In rq (ls_reqs (run_v0 answer root_answer kind_of no_faults t)) /\ F (rq_fetch rq) = Some (FtItems ik we s5)) /\
+    o_failed (finish root (run_v0 answer root_answer kind_of F t)) = true.
 Proof.
   exists p1_answer, p1_root_answer, p1_kind, p1_tree, p1_root, (fault_at 1 (FtItems IkNum false false)).
   split; [vm_compute; reflexivity|]. split; [vm_compute; reflexivity|]. split.
   - eexists; exists IkNum, false, false. split; [vm_compute; right; left; reflexivity|reflexivity].
   - vm_compute. reflexivity.
 Qed.
-Example p1_wrong_kind_variants :
-  ls_hard (p1_run (fault_at 2 (FtItems IkStr true true))) = true /\
-  ls_hard (p1_run (fault_at 1 (FtItems IkList false false))) = true /\
-  ls_hard (p1_run (fault_at 0 (FtShape ShDataStr false false))) = true /\
-  ls_hard (p1_run (fault_at 0 (FtShape ShDataArr false false))) = true.
+Example p1_wrong_kind_variants_v0 :
+  ls_hard (run_v0 p1_answer p1_root_answer p1_kind (fault_at 2 (FtItems IkStr true true)) p1_tree) = true /\
+  ls_hard (run_v0 p1_answer p1_root_answer p1_kind (fault_at 1 (FtItems IkList false false)) p1_tree) = true /\
+  ls_hard (run_v0 p1_answer p1_root_answer p1_kind (fault_at 0 (FtShape ShDataStr false false)) p1_tree) = true /\
+  ls_hard (run_v0 p1_answer p1_root_answer p1_kind (fault_at 0 (FtShape ShDataArr false false)) p1_tree) = true.
+Proof. vm_compute. repeat split; reflexivity. Qed.
+(* the repaired loader (mergeableData): "no data or errors in response" for that fetch, the response is written, the fetch recorded *)
+Example p1_wrong_kind_repaired :
+  List.map le_kind (ls_errors (p1_run (fault_at 1 (FtItems IkNum false false)))) = [LE_SHAPE] /\
+  List.map le_kind (ls_errors (p1_run (fault_at 2 (FtItems IkStr false true)))) = [LE_SHAPE] /\
+  List.map le_kind (ls_errors (p1_run (fault_at 2 (FtItems IkList true false)))) = [LE_FETCH; LE_SHAPE] /\
+  List.map le_kind (ls_errors (p1_run (fault_at 0 (FtShape ShDataStr false false)))) = [LE_SHAPE] /\
+  ls_hard (p1_run (fault_at 0 (FtShape ShDataArr false true))) = false /\
+  ls_errored (p1_run (fault_at 1 (FtItems IkList false false))) = [1] /\
+  o_failed (p1_out (fault_at 1 (FtItems IkNum false false))) = false.
 Proof. vm_compute. repeat split; reflexivity. Qed.
 
 (* ---- plan 5 (a chain of nullable @requires inputs): f1 provides a.r, f2 needs r and provides a.g, f3 needs g
